@@ -295,44 +295,71 @@ def check_fill_queue(ctx, rep, rules=('B-acc', 'X-opsites', 'W-iter')):
             rep.ob(R_OPS, 'exterior-flag:' + inst, ok, 'clipping exterior flag must be `operation != Difference`; found %s' % show(noepoch(x)),
                    loc=b.loc(line), reason='provenance')
     rep.floor(R_ACC, 'process_polygon call sites', n, 4)
+    # local helpers fill_queue calls (not inlined: they contain loops or branches) are analysed with the actual arguments substituted
+    units = [(b, p, None) for p in ps]
+    descended = set()
+    for p in ps:
+        for e in p.calls():
+            cn = e['callee']
+            if cn.endswith('process_polygon') or cn not in ctx.facts().bodies or e.get('inlined') or (cn, e['line']) in descended:
+                continue
+            try:
+                hb, hps = ctx.paths(cn)
+            except sym.CannotAnalyse:
+                continue
+            descended.add((cn, e['line']))
+            rep.analysed.add(cn)
+            for hp in hps:
+                units.append((hb, hp, e['args']))
+    descended_names = set(cn for cn, _ in descended)
+
+    def sub(v, actual):
+        return v if actual is None else subst_params(v, actual)
+
     # the operation parameter reaches nothing but the exterior flag / contour-id increment of clipping polygons
     uses = set()
-    for p in ps:
+    branch_conds = set()
+    for (ub, p, actual) in units:
         for e in p.events:
             if e['k'] == 'branch' and e.get('depth', 0) == 0:
-                if any(x[0] == 'param' and x[2] == 'operation' for x in sym.walk(e['val'])):
+                val = sub(e['val'], actual)
+                if any(x[0] == 'param' and x[2] == 'operation' for x in sym.walk(val)):
                     uses.add(('branch', e['line']))
+                    # (a) branches that depend on the operation: only the test `operation != Difference` (the exterior flag) may
+                    v = strip_upd(val)
+                    okc = v[0] == 'op' and v[1] in ('ne', 'eq') and param_name(v[2]) == 'operation' and show(v[3]).endswith('Difference{}')
+                    if not okc:
+                        branch_conds.add((show(noepoch(v))[:80], ub.loc(e['line'])))
             if e['k'] == 'call' and e['depth'] == 0:
+                if actual is None and e['callee'] in descended_names:
+                    continue            # analysed inside the helper
                 for i, a in enumerate(e['args']):
-                    if any(x[0] == 'param' and x[2] == 'operation' for x in sym.walk(a)):
+                    if any(x[0] == 'param' and x[2] == 'operation' for x in sym.walk(sub(a, actual))):
                         uses.add((short(e['callee']), i))
-    # (a) branches that depend on the operation: only the test `operation != Difference` (the exterior flag) may
-    branch_conds = set()
-    for p in ps:
-        for e in p.events:
-            if e['k'] == 'branch' and e.get('depth', 0) == 0 and any(x[0] == 'param' and x[2] == 'operation' for x in sym.walk(e['val'])):
-                v = strip_upd(e['val'])
-                okc = v[0] == 'op' and v[1] in ('ne', 'eq') and param_name(v[2]) == 'operation' and show(v[3]).endswith('Difference{}')
-                if not okc:
-                    branch_conds.add((show(noepoch(v))[:80], e['line']))
-    for (c, line) in sorted(branch_conds):
+    for (c, loc) in sorted(branch_conds):
         rep.ob(R_OPS, 'operation-dependent-branch', False,
                'fill_queue branches on `%s`: the only operation-dependent decision allowed here is `operation != Difference` for the '
                'exterior flag / contour id of clipping polygons (every ring of both operands must be queued for every operation)' % c,
-               loc=b.loc(line), reason='dominance')
+               loc=loc, reason='dominance')
     # (b) every iteration of every ring loop hands its ring to process_polygon
     n_iter = 0
-    for p in ps:
+    seen_iter = set()
+    for (ub, p, actual) in units:
         if p.end != 'backedge':
             continue
         last = max(i for i, e in enumerate(p.events) if e['k'] == 'loophead' and e['bb'] == p.end_info)
+        if actual is not None:
+            k = (ub.id, tuple(p.blocks))
+            if k in seen_iter:
+                continue            # the same helper path, reached from another call site
+            seen_iter.add(k)
         n_iter += 1
         called = any(e['k'] == 'call' and e['depth'] == 0 and (e['callee'].endswith('process_polygon') or
                      (e['callee'] in ctx.facts().bodies and not e.get('inlined'))) for e in p.events[last:])
         rep.ob(R_OPS, 'every-ring-queued', called,
-               'a path through a polygon/ring loop of fill_queue reaches the next iteration without calling process_polygon: some ring of '
-               'an operand is not queued (conditions: %s)' % [show(noepoch(v))[:50] for v, _ in p.conds][-3:],
-               loc=b.loc(p.events[last].get('line', b.j['line_lo'])) if False else b.loc(b.j['line_lo']), reason='dominance')
+               'a path through a polygon/ring loop of %s reaches the next iteration without calling process_polygon: some ring of '
+               'an operand is not queued (conditions: %s)' % (short(ub.id), [show(noepoch(v))[:50] for v, _ in p.conds][-3:]),
+               loc=ub.loc(ub.j['line_lo']), reason='dominance')
     rep.floor(R_OPS, 'loop iteration paths of fill_queue', n_iter, 4)
     allowed = {('fill_queue::process_polygon', 5)}
     extra = sorted(u for u in uses if u[0] != 'branch' and u not in allowed)
